@@ -173,7 +173,9 @@ def rule_R02_1(ctx, restrict_fns=None, rule_id="R02.1"):
             r.notes.append("operator %s may lock %s" % (v, sorted(locks.short_ty(t) for t in e)))
         for (p, bb), vs in sorted(site_variants.items()):
             r.notes.append("operator call site in %s receives ops %s" % (p, sorted(vs)))
-        r.require_floor("try_lock acquisitions", acq, 35)
+        # (a clean-up may centralise the locking in a few container helpers,
+        # so the floor is a small positive control, not today's count of 40)
+        r.require_floor("try_lock acquisitions", acq, 6)
         r.notes.append("%d try_lock acquisitions in %d functions" % (acq, fns_with))
     if not r.obligations:
         r.ok()
